@@ -226,6 +226,26 @@ pub fn variants(base: &Base) -> Vec<Variant> {
             t.path.pop();
             true
         });
+        edit!("zero-amount-input-appended", |t: &mut Transaction| {
+            // an input that carries no value (as message-only transactions have) named after a
+            // third party: nothing checks its ownership, so only the commitment can catch it
+            let mut sl = saito_core::core::consensus::slip::Slip::default();
+            sl.public_key = key(5).public;
+            sl.amount = 0;
+            sl.slip_index = t.from.len() as u8;
+            t.from.push(sl);
+            true
+        });
+        edit!("zero-amount-input-renumbered", |t: &mut Transaction| {
+            match t.from.iter_mut().find(|s| s.amount == 0) {
+                Some(sl) => {
+                    sl.tx_ordinal += 7;
+                    sl.block_id += 1;
+                    true
+                }
+                None => false,
+            }
+        });
         edit!("path-hop-to", |t: &mut Transaction| {
             if t.path.is_empty() {
                 return false;
